@@ -14,7 +14,7 @@ import numpy as np
 from .. import tlc, ftable
 from ..common import Report, MachineryError, seed, quiet
 from ._c1314_util import (lib_call, run_parts, PrivateGone, skipped_private, DuckDataKBase, enumerate_states, run_tlc,
-                          validate_records, candidate_finding, Guard)
+                          validate_records, Guard)
 
 PROPS = {
     "C15": dict(level="model_checking",
@@ -32,9 +32,9 @@ PROPS = {
                      "energies, thresholds in half units, integer arrays) are recorded from the real functions and every clause of BandsRec "
                      "is evaluated on them by TLC.",
                 note="energies are integers times 1/8 (replays) or 1/16 (records), exact in binary floating point. Kramers mode is exercised on "
-                     "paired input with an even number of bands only (DESIGN.md 7.2); with an odd number of bands get_borders(degen_Kramers=True) "
-                     "leaves the last band in no group: reported as CANDIDATE-FINDING get_borders:kramers:odd_number_of_bands (KNOWN-FINDING once "
-                     "registered), not a VIOLATION. find_degen (used for shells of b-vectors only) and get_bands_below_range (strictness at a tie) "
+                     "paired input (DESIGN.md 7.2) with even and odd numbers of bands: the blocks partition all bands, boundaries are even "
+                     "except the final one; the behaviour before repair 69ca1f4e (odd final border dropped, last band in no group) is the "
+                     "must-fail model variant DropOddFinalBorder. find_degen (used for shells of b-vectors only) and get_bands_below_range (strictness at a tie) "
                      "are compared for information only (parts find_degen_info / below_range_info). Sub-checks that need private names which "
                      "have disappeared are skipped and listed in the part skipped_private.",
                 ref="DESIGN.md 3.5"),
@@ -116,7 +116,7 @@ def py_borders(E, th, kr):
     records themselves are judged by TLC)"""
     b = [0] + [i for i in range(1, len(E)) if E[i] - E[i - 1] > th] + [len(E)]
     if kr:
-        b = [i for i in b if i % 2 == 0]
+        b = [i for i in b if i % 2 == 0 or i == len(E)]
     return [(a, c) for a, c in zip(b, b[1:])]
 
 
@@ -152,17 +152,22 @@ def tab_expected(E, groups, vals, ibands):
 # ---------------------------------------------------------------------------------------------------------------------
 def part_borders(rep, thorough, rng):
     nb, emax = (7, 4) if thorough else (6, 3)
-    cfg = f"SPECIFICATION Spec\nCONSTANTS\n  NB = {nb}\n  EMAX = {emax}\n  THS = {{0, 1, 2}}\n" + \
-          "".join(f"INVARIANT {i}\n" for i in ("GroupsPartition", "GroupsInternal", "GroupsBoundary", "GroupsKramers", "InRangeSubset", "InRangeRelaxed")) + \
-          "CHECK_DEADLOCK FALSE\n"
-    st = enumerate_states("MC_BandsBorders.tla", cfg, "c15_borders")
+    bcfg = lambda drop, n: (f"SPECIFICATION Spec\nCONSTANTS\n  NB = {n}\n  EMAX = {emax}\n  THS = {{0, 1, 2}}\n  DropOddFinalBorder = {'TRUE' if drop else 'FALSE'}\n" +
+                            "".join(f"INVARIANT {i}\n" for i in ("GroupsPartition", "GroupsInternal", "GroupsBoundary", "GroupsKramers", "InRangeSubset", "InRangeRelaxed")) +
+                            "CHECK_DEADLOCK FALSE\n")
+    st = enumerate_states("MC_BandsBorders.tla", bcfg(False, nb), "c15_borders")
     ftable.spec_violation(rep, st, "c15_borders")
     rep.add_tlc("c15_borders", st)
+    # sensitivity: get_borders before the repair (odd final border dropped in Kramers mode) must violate the partition property
+    st0 = run_tlc("MC_BandsBorders.tla", bcfg(True, 3), "c15_borders_dropodd", timeout=900)
+    if not st0.get("violation"):
+        raise MachineryError("sensitivity self-test failed: MC_BandsBorders with DropOddFinalBorder=TRUE should violate GroupsPartition")
+    rep.part("c15_borders_dropodd", sensitivity_violation=st0["violation"][1])
     states = sorted(ftable.dump_states(st), key=lambda s: (len(s["E"]), tuple(s["E"]), s["th"], s["kr"], s["emin"], s["emax"]))
     if len(states) != st["distinct"]:
         raise MachineryError(f"dump has {len(states)} states, TLC reported {st['distinct']}")
     info = dict(find_degen_differs=0, find_degen_compared=0, below_differs=0, below_compared=0, in_range_other_ends=0)
-    cls = dict(kramers=0, multi_band_group=0, tab_two_kpoints=0, tab_band_subset=0, tab_kramers=0, tab_subset_inside_block=0, range_edge_tie=0)
+    cls = dict(kramers=0, kramers_odd_number_of_bands=0, multi_band_group=0, tab_two_kpoints=0, tab_band_subset=0, tab_kramers=0, tab_subset_inside_block=0, range_edge_tie=0)
     G = Guard(rep)
     guarded = G.call
     done_groups = {}
@@ -179,6 +184,7 @@ def part_borders(rep, thorough, rng):
         if gkey not in done_groups:
             done_groups[gkey] = True
             cls["kramers"] += kr
+            cls["kramers_odd_number_of_bands"] += kr and len(E) % 2 == 1
             cls["multi_band_group"] += any(b - a > 1 for a, b in exp)
             ok, got = guarded("get_borders", "get_borders", inputs, call_borders, E, th, kr)
             if ok and got != exp:
@@ -257,26 +263,6 @@ def part_borders(rep, thorough, rng):
 def call_in_range(E, th, kr, emin, emax, unit=UNIT):
     f = private("wannierberri.grid.tetrahedron", "get_bands_in_range")
     return groups_of(f(emin, emax, np.array(E, dtype=float) * unit, degen_thresh=th * unit, degen_Kramers=kr))
-
-
-def part_kramers_odd(rep):
-    """candidate finding (not excluded silently): Kramers mode with an odd number of bands"""
-    E, th = [0, 1, 2], 0
-    try:
-        got = call_borders(E, th, True)
-    except Exception as ex:
-        rep.part("kramers_odd_number_of_bands", not_evaluated=f"{type(ex).__name__}: {str(ex)[:200]}")
-        return
-    covered = sorted(b for a, c in got for b in range(a, c))
-    if covered != list(range(len(E))):
-        candidate_finding(rep, "get_borders:kramers:odd_number_of_bands",
-                          dict(call="wannierberri.grid.tetrahedron.get_borders(np.array([0., 0.125, 0.25]), 0.0, degen_Kramers=True)",
-                               got=[list(g) for g in got], bands_in_no_group=[b for b in range(len(E)) if b not in covered],
-                               statement="the band groups partition the bands at each k",
-                               consequence="calculators with degen_Kramers=True ignore the highest band when num_wann is odd "
-                                           "(CumDOS saturates at num_wann - 1, tabulated values of the last band are missing)"))
-    else:
-        rep.part("kramers_odd_number_of_bands", partition=True)
 
 
 def part_window(rep, thorough, rng):
@@ -419,7 +405,7 @@ def part_wannierise_wiring(rep, rng, recs):
 def part_records(rep, thorough, rng, recs):
     nrec = 3000 if thorough else 600
     U = UNIT_REC
-    stats = dict(borders=0, kramers=0, window=0, window_inverted=0, window_int_array=0, inrange=0, tab=0, tab_ibands=0, negative=0, long=0, odd_threshold=0)
+    stats = dict(borders=0, kramers=0, kramers_odd=0, window=0, window_inverted=0, window_int_array=0, inrange=0, tab=0, tab_ibands=0, negative=0, long=0, odd_threshold=0)
     for _ in range(nrec):
         n = rng.choice([rng.randint(1, 12), rng.randint(1, 12), rng.randint(13, 16)])
         off = rng.choice([0, 0, -7, -20])
@@ -432,7 +418,9 @@ def part_records(rep, thorough, rng, recs):
                 half = E[:max(1, n // 2)]
                 E = sorted(half + [e + rng.randint(0, th) for e in half])
                 E = [x for p in zip(sorted(half), sorted(half)) for x in p] if rng.random() < 0.5 else E
-                if len(E) % 2 or any(E[2 * k + 1] - E[2 * k] > th for k in range(len(E) // 2)):
+                if rng.random() < 0.4:
+                    E = E + [E[-1] + rng.randint(0, 2 * th + 1)]        # an odd number of bands: the highest one has no partner
+                if any(E[2 * k + 1] - E[2 * k] > th for k in range(len(E) // 2)):
                     kr = False
             inputs = dict(E=E, th=th, kramers=kr, unit=U)
             try:
@@ -445,6 +433,7 @@ def part_records(rep, thorough, rng, recs):
                 continue
             recs.append(dict(fn="borders", E=E, th=th, kr=kr, out=[list(g) for g in out], origin=src, unit=U))
             stats["kramers"] += kr
+            stats["kramers_odd"] += kr and len(E) % 2 == 1
         elif r < 0.72:
             lo = rng.randint(min(E) - 2, max(E) + 2)
             hi = rng.randint(lo, max(E) + 2) if rng.random() < 0.9 else rng.randint(min(E) - 2, lo)
@@ -533,11 +522,10 @@ def check(pid, tier):
              "on the real functions (exact comparison of sets of groups / selected bands; Tabulator values exact integers), plus the window "
              "masks recorded from inside wannierise and seeded random recorded calls validated by TLC; distinct by input tuple")
     rep.assume("energies/thresholds/windows are integer multiples of 1/8 (records 1/16), so float comparisons in the code are exact")
-    rep.assume("Kramers mode: paired input with an even number of bands (the odd case is reported as a candidate finding)")
+    rep.assume("Kramers mode: paired input (E[2i], E[2i+1] within the threshold; with an odd number of bands the highest band has no partner)")
 
     def body():
         part_borders(rep, thorough, rng)
-        part_kramers_odd(rep)
         part_window(rep, thorough, rng)
         recs = []
         part_wannierise_wiring(rep, rng, recs)
